@@ -263,6 +263,19 @@ fn gen_c02(ctx: &mut Ctx) {
             if nl {
                 enc.extend_from_slice(b"\r\n");
             }
+            // what the library itself writes for this frame must be the reference encoding; if it is not (C01's
+            // business), the damage cases below are run on the library's own output as well, because that is what a
+            // receiver of this library's frames would see damaged
+            let own_enc = {
+                let e = crate::eval::eval_case(&format!("ENC {} {} {}", a, t, hex_of_bytes(d)));
+                let mut v = bytes_of_hex(e.split(' ').next().unwrap_or("-"));
+                if nl {
+                    v.extend_from_slice(b"\r\n");
+                }
+                v
+            };
+            let encs: Vec<Vec<u8>> = if own_enc != enc && own_enc.len() > 10 { vec![enc.clone(), own_enc] } else { vec![enc.clone()] };
+            for enc in encs {
             let full_alphabet = d.len() <= 2 && (ctx.tier_thorough || fi < 4);
             let mut emit = |ctx: &mut Ctx, s: Vec<u8>, class: &str| {
                 if s == enc {
@@ -317,6 +330,7 @@ fn gen_c02(ctx: &mut Ctx) {
                 }
                 // proper prefix
                 emit(ctx, enc[..i].to_vec(), "truncate");
+            }
             }
         }
     }
@@ -904,6 +918,41 @@ fn gen_c05(ctx: &mut Ctx) {
             wire_case(ctx, m.clone(), &format!("SD-len{:03}", len / 64 * 64));
             inj(ctx, &m);
         }
+    }
+    // a rejected line of each kind must not influence the messages handled after it
+    for (k, bad) in [&b":01007F02FF7E"[..], &b":00007F02007F"[..], &b"garbage"[..], &b":0200000000FE"[..], &b":01007F02FF7E\r\n"[..]].iter().enumerate() {
+        ctx.case(format!("DEC {}", hex_of_bytes(bad)), true, "rejected-line-then-more");
+        for m in [format!("HE.{}", 3 + k), format!("SD.16.{}", hex_of_bytes(&rng.bytes(1 + 40 * k))), format!("RS.{}.PLD", 0xFF00 + k), "DC.513".to_string()] {
+            wire_case(ctx, m.clone(), "rejected-line-then-more");
+        }
+    }
+    // several messages one after the other through a byte stream (Frame::write, then Frame::read): each comes back as
+    // itself and nothing is left over -- including maximum-length data chunks in the middle
+    for k in 0..(if ctx.tier_thorough { 400 } else { 60 }) {
+        let n = 2 + rng.below(4) as usize;
+        let msgs: Vec<String> = (0..n)
+            .map(|i| match (k + i) % 6 {
+                0 => {
+                    let len = *rng.pick(&[255usize, 254, 0, 1, 16, 128]);
+                    format!("SD.{}.{}", rng.below(65536), hex_of_bytes(&rng.bytes(len)))
+                }
+                1 => format!("RS.{}.{}", rng.below(65536), STATES[(k % 13) as usize].1),
+                2 => format!("DC.{}", rng.below(65536)),
+                3 => format!("AO.{}.{}", rng.below(65536), OPS[(k % 6) as usize].1),
+                4 => format!("SD.{}.{}", i * 16, hex_of_bytes(&rng.bytes(255))),
+                _ => format!("HE.{}", rng.below(65536)),
+            })
+            .collect();
+        let line = format!("WIRES {}", msgs.join(" "));
+        let res = ctx.case(line.clone(), true, "stream-of-messages");
+        let want = format!("{} | left=0", msgs.iter().map(|m| format!("OK {}", m)).collect::<Vec<_>>().join(" ; "));
+        ctx.monitor(res == want, "C05-roundtrip", &line[..line.len().min(300)], &res[..res.len().min(200)]);
+    }
+    // many threads at once: a thread must never get another thread's message back
+    for (threads, iters) in [(8usize, 3000usize), (16, 1500)] {
+        let line = format!("MT {} {}", threads, iters);
+        let res = ctx.case(line.clone(), true, "concurrent");
+        ctx.monitor(res == "OK", "C05-roundtrip", &line, &res);
     }
     // short data blocks that collide with other kinds' (type, byte) pairs if the type were ignored
     for b in 0..=255u16 {
